@@ -179,3 +179,532 @@ def c03(req, ra, ctr):
                         core.fmt_params(s), n, nms, fl, core.fmt_params(R), m, K))
                     break
     return fails
+
+
+# ----------------------------------------------------------------------------- shared helpers
+def posl(s):
+    return [p for p in s if p[1] in ('po', 'pk')]
+
+
+def role_cons(inputs):
+    for x, y in itertools.combinations(inputs, 2):
+        kx = {p[0]: p[1] for p in x}
+        ky = {p[0]: p[1] for p in y}
+        ix = {p[0]: i for i, p in enumerate(posl(x))}
+        iy = {p[0]: i for i, p in enumerate(posl(y))}
+        for nme in set(kx) & set(ky):
+            if kx[nme] != ky[nme]:
+                return False
+            if nme in ix and ix[nme] != iy.get(nme):
+                return False
+    return True
+
+
+def aligned(inputs):
+    if not role_cons(inputs):
+        return False
+    for x, y in itertools.combinations(inputs, 2):
+        for p, q in zip(posl(x), posl(y)):
+            if p[0] != q[0]:
+                return False
+    return True
+
+
+def inputs_of(req):
+    """the input signatures of a request as [(name, kind, dflt, ann, uann)], plus their fn ids"""
+    op = req[0]
+    if op == 'merge':
+        ds = list(req[1])
+    elif op == 'embed':
+        ds = list(req[3])
+    elif op in ('mask', 'maskp'):
+        ds = [req[4]]
+    elif op == 'forwards':
+        ds = [req[4], req[5]]
+    else:
+        ds = []
+    return ds
+
+
+def S3(d):
+    return [(p[0], p[1], p[2]) for p in d['params']]
+
+
+def R_full(ra):
+    """canonical result params with string names: (name, kind, dflt, ann, uann)"""
+    return [(core.NAMES.name(p[0]), p[1], p[2], p[3], p[4]) for p in ra[1]]
+
+
+# ----------------------------------------------------------------------------- C01
+def c01(req, ra, ctr):
+    if req[0] != 'merge':
+        return []
+    ins = [S3(d) for d in req[1]]
+    if ra[0] == 'err':
+        if ra[1] not in ('IncompatibleSignatures', 'ValueError'):
+            return ['bad-exception: merge raised %s' % ra[1]]
+        return []
+    R = P_of(ra[1])
+    rc = role_cons(ins)
+    ctr['c01:checked'] += 1
+    if rc:
+        ctr['c01:role-consistent'] += 1
+    for n, K in shapes_for(ins + [R], foreign=('zz',), maxk=4):
+        if not acc(R, n, K):
+            continue
+        pure = (n == 0 or not K)
+        if not pure and not (rc and non_colliding(R, ins, K)):
+            continue
+        for j, s in enumerate(ins):
+            if not acc(s, n, K):
+                return ['unsound-%s: merge(%s) = %s accepts (%d,%s) but input %d %s rejects it' % (
+                    'pure' if pure else 'roles', ', '.join(core.fmt_params(x) for x in ins), core.fmt_params(R),
+                    n, K, j, core.fmt_params(s))]
+    return []
+
+
+# ----------------------------------------------------------------------------- C09
+def _merge_real(ds):
+    return core.run_real(signatures.merge, *[core.mk_sig(d) for d in ds])
+
+
+def c09(req, ra, ctr):
+    op = req[0]
+    fails = []
+    if op == 'apply':
+        want = core.canon_sig(core.mk_sig(req[1]))
+        if ra != want:
+            fails.append('roundtrip: apply_params(s, *sort_params(s)) != s for %s' % core.fmt_desc(req[1]))
+        return fails
+    if op != 'merge':
+        return []
+    ds = list(req[1])
+    ins = [S3(d) for d in ds]
+    if ra[0] == 'err' and ra[1] not in ('IncompatibleSignatures', 'ValueError'):
+        return ['bad-exception: merge raised %s' % ra[1]]
+    # unary / idempotence / neutral element
+    bare_idx = [j for j, s in enumerate(ins) if [p[1] for p in s] == ['vp', 'vk']]
+    if len(ds) == 1:
+        if ra != core.canon_sig(core.mk_sig(ds[0])):
+            fails.append('unary: merge(s) != s for %s' % core.fmt_params(ins[0]))
+        ctr['c09:unary'] += 1
+    if len(ds) == 2 and ds[0]['params'] == ds[1]['params']:
+        ctr['c09:idem'] += 1
+        if ra[0] != 'ok' or ra[1] != core.canon_sig(core.mk_sig(ds[0]))[1]:
+            fails.append('idempotence: merge(s, s) != s for %s' % core.fmt_params(ins[0]))
+    if len(ds) == 2 and len(bare_idx) == 1:
+        ctr['c09:neutral'] += 1
+        other = ins[1 - bare_idx[0]]
+
+        def strip(ps):
+            return [(('*' if p[1] == 'vp' else '**' if p[1] == 'vk' else p[0]), p[1], p[2]) for p in ps]
+        if ra[0] != 'ok' or strip(P_of(ra[1])) != strip(other):
+            fails.append('neutral: merge with bare (*args, **kwargs) on side %d changed %s into %s' % (
+                bare_idx[0], core.fmt_params(other), core.fmt_params(P_of(ra[1])) if ra[0] == 'ok' else ra))
+    al = aligned(ins)
+    rc = role_cons(ins)
+    if al:
+        ctr['c09:aligned'] += 1
+        if ra[0] == 'err':
+            if ra[1] != 'IncompatibleSignatures':
+                fails.append('aligned-valueerror: merge of aligned inputs raised plain %s: %s' % (
+                    ra[1], ', '.join(core.fmt_params(x) for x in ins)))
+            else:
+                allnames = set(p[0] for s in ins for p in s)
+                for n, K in shapes_for(ins, foreign=('zz', 'zy')):
+                    if any(k in allnames for k in K):
+                        continue
+                    if all(acc(s, n, K) for s in ins):
+                        fails.append('raise-but-common: merge(%s) raised, yet every input accepts (%d,%s)' % (
+                            ', '.join(core.fmt_params(x) for x in ins), n, K))
+                        break
+        else:
+            R = P_of(ra[1])
+            for n, K in shapes_for(ins, foreign=('zz',), maxk=4):
+                if not non_colliding(R, ins, K):
+                    continue
+                a1 = acc(R, n, K)
+                a2 = all(acc(s, n, K) for s in ins)
+                if a1 != a2:
+                    fails.append('inexact-aligned: merge(%s) = %s %s (%d,%s), inputs %s' % (
+                        ', '.join(core.fmt_params(x) for x in ins), core.fmt_params(R),
+                        'accepts' if a1 else 'rejects', n, K, 'all accept' if a2 else 'do not all accept'))
+                    break
+    if rc and len(ds) >= 3:
+        ctr['c09:assoc'] += 1
+        first = _merge_real(ds[:2])
+        if first[0] == 'ok':
+            try:
+                import warnings
+                with warnings.catch_warnings():
+                    warnings.simplefilter('ignore')
+                    m1 = signatures.merge(*[core.mk_sig(d) for d in ds[:2]])
+                    nested = core.run_real(signatures.merge, m1, *[core.mk_sig(d) for d in ds[2:]])
+            except Exception as e:  # noqa
+                nested = core.canon_exc(e)
+            if nested != ra:
+                fails.append('fold: merge(a,b,c..) != merge(merge(a,b),c..) for %s: %s vs %s' % (
+                    ', '.join(core.fmt_params(x) for x in ins), ra[:3], nested[:3]))
+        elif ra[0] != 'err':
+            fails.append('fold: merge(a,b) raises but merge(a,b,c..) returns for %s' % (
+                ', '.join(core.fmt_params(x) for x in ins)))
+    return fails
+
+
+# ----------------------------------------------------------------------------- C02
+def composite(o, i, uva, uvk, n, K):
+    if not acc(o, n, K):
+        return False
+    npos = len(posl(o))
+    kwp = kw_passable(o)
+    n2 = max(0, n - npos) if uva else 0
+    k2 = tuple(k for k in K if k not in kwp) if uvk else ()
+    return acc(i, n2, k2)
+
+
+def _embed_real(ds, uva, uvk):
+    return core.run_real(signatures.embed, *[core.mk_sig(d) for d in ds], use_varargs=bool(uva), use_varkwargs=bool(uvk))
+
+
+def c02(req, ra, ctr):
+    if req[0] != 'embed':
+        return []
+    _, uva, uvk, ds = req
+    ds = list(ds)
+    ins = [S3(d) for d in ds]
+    fails = []
+    if ra[0] == 'err' and ra[1] != 'IncompatibleSignatures':
+        # a plain ValueError is possible only through duplicate names across star/named parameters
+        named = [set(p[0] for p in s) for s in ins]
+        if not any(a & b for a, b in itertools.combinations(named, 2)):
+            fails.append('bad-exception: embed raised %s for %s' % (ra[1], ', '.join(core.fmt_params(x) for x in ins)))
+        return fails
+    if len(ds) == 2:
+        o, i = ins
+        onames = set(names_of(o, ('po', 'pk', 'ko')))
+        inames = set(names_of(i, ('po', 'pk', 'ko')))
+        if ra[0] == 'err':
+            ctr['c02:raise'] += 1
+            if not (onames & inames) and not (set(names_of(o)) & set(names_of(i)) - {x for x in names_of(o, ('vp', 'vk'))}):
+                for n, K in shapes_for(ins, foreign=('zz',)):
+                    if composite(o, i, uva, uvk, n, K):
+                        fails.append('raise-unjustified: embed(%s, %s, %s, %s) raised but the composite accepts (%d,%s)' % (
+                            core.fmt_params(o), core.fmt_params(i), uva, uvk, n, K))
+                        break
+            return fails
+        R = P_of(ra[1])
+        ctr['c02:ok'] += 1
+        opos = posl(o)
+        ipos_in_R = [p for p in R if p[1] in ('po', 'pk') and p[0] in inames and p[0] not in onames]
+        exc_case = any(p[2] is not None for p in opos) and bool(ipos_in_R)
+        if exc_case:
+            ctr['c02:inexact-allowed'] += 1
+        for n, K in shapes_for(ins, foreign=('zz',), maxk=4):
+            if not non_colliding(R, ins, K):
+                continue
+            a1 = acc(R, n, K)
+            a2 = composite(o, i, uva, uvk, n, K)
+            if a1 and not a2:
+                fails.append('unsound: embed(%s, %s, %s, %s) = %s accepts (%d,%s) but outer-forwarding-to-inner does not' % (
+                    core.fmt_params(o), core.fmt_params(i), uva, uvk, core.fmt_params(R), n, K))
+                break
+            if a2 and not a1 and not exc_case:
+                fails.append('inexact: embed(%s, %s, %s, %s) = %s rejects (%d,%s) which the composite accepts' % (
+                    core.fmt_params(o), core.fmt_params(i), uva, uvk, core.fmt_params(R), n, K))
+                break
+        if [p[1] for p in o] == ['vp', 'vk'] and uva and uvk:
+            ctr['c02:bare'] += 1
+            if [(p[0], p[1], p[2]) for p in R] != i:
+                fails.append('bare: embed((*args, **kwargs), %s) = %s' % (core.fmt_params(i), core.fmt_params(R)))
+    elif len(ds) >= 3:
+        ctr['c02:fold'] += 1
+        first = _embed_real(ds[:2], uva, uvk)
+        if first[0] == 'ok':
+            import warnings
+            with warnings.catch_warnings():
+                warnings.simplefilter('ignore')
+                m1 = signatures.embed(*[core.mk_sig(d) for d in ds[:2]], use_varargs=bool(uva), use_varkwargs=bool(uvk))
+                nested = core.run_real(signatures.embed, m1, *[core.mk_sig(d) for d in ds[2:]],
+                                       use_varargs=bool(uva), use_varkwargs=bool(uvk))
+            a = ra[1] if ra[0] == 'ok' else ra
+            b = nested[1] if nested[0] == 'ok' else ('err',) if nested[0] == 'err' else nested
+            if ra[0] == 'err':
+                a = ('err',)
+            if a != b:
+                fails.append('fold: embed(a,b,c) params != embed(embed(a,b),c) params for %s: %s vs %s' % (
+                    ', '.join(core.fmt_params(x) for x in ins), a, b))
+        elif ra[0] != 'err':
+            fails.append('fold: embed(a,b) raises but embed(a,b,c) returns for %s' % ', '.join(core.fmt_params(x) for x in ins))
+    return fails
+
+
+# ----------------------------------------------------------------------------- C08
+def c08(req, ra, ctr):
+    """provenance of an algebra result whose inputs carry default sources"""
+    op = req[0]
+    if op not in ('merge', 'embed', 'mask', 'maskp', 'forwards') or ra[0] != 'ok':
+        return []
+    ds = inputs_of(req)
+    fails = []
+    if 'no-sources' in ra[6] or 'no-depths' in ra[6]:
+        return ['no-depths: result lacks sources / +depths (%s)' % (ra[6],)]
+    R = R_full(ra)
+    rnames = [p[0] for p in R]
+    src = {core.NAMES.name(k): list(v) for k, v in ra[2]}
+    depths = dict(ra[3])
+    decl = {}
+    for d in ds:
+        decl.setdefault(d['fn'], set()).update(p[0] for p in d['params'])
+    if op == 'maskp':
+        decl[req[3]] = set(k for k, _ in req[2])
+    fns = [d['fn'] for d in ds]
+    shared_fn = len(set(fns)) != len(fns)
+    ctr['c08:checked'] += 1
+    if sorted(src) != sorted(rnames):
+        fails.append('keys: sources keys %s != parameter names %s for %s' % (sorted(src), sorted(rnames), engine.line(req)))
+    for x, lst in src.items():
+        if not lst:
+            fails.append('empty: sources[%s] is empty for %s' % (x, engine.line(req)))
+        if len(set(lst)) != len(lst):
+            if shared_fn and all(lst.count(f) == 1 or fns.count(f) > 1 for f in lst):
+                fails.append('dup-sources-same-callable: sources[%s] = %s (the same callable is an input twice)' % (x, lst))
+            else:
+                fails.append('dup-sources: sources[%s] = %s for %s' % (x, lst, engine.line(req)))
+        for f in lst:
+            if f not in depths:
+                fails.append('no-depth-for-source: %s in sources[%s] has no depth for %s' % (f, x, engine.line(req)))
+            if x not in decl.get(f, ()):
+                fails.append('untruthful: sources[%s] names callable %s which declares no such parameter, for %s' % (
+                    x, f, engine.line(req)))
+    # exactness for named parameters on consistently named inputs
+    ins = [S3(d) for d in ds]
+    consistent = False
+    if op == 'merge':
+        consistent = role_cons(ins)
+    elif op == 'embed':
+        allsets = [set(p[0] for p in s) for s in ins]
+        consistent = not any(a & b - {'args', 'kwargs', 'p', 'k'} for a, b in itertools.combinations(allsets, 2)) and \
+            not any(set(names_of(a, ('po', 'pk', 'ko'))) & set(names_of(b)) for a, b in itertools.permutations(ins, 2))
+    elif op == 'forwards':
+        consistent = not (set(names_of(ins[0])) & set(names_of(ins[1], ('po', 'pk', 'ko')))) and \
+            not (set(names_of(ins[0], ('po', 'pk', 'ko'))) & set(names_of(ins[1])))
+    if consistent and not shared_fn:
+        ctr['c08:exact-checked'] += 1
+        for p in R:
+            if p[1] in ('vp', 'vk'):
+                continue
+            want = {d['fn'] for d in ds if p[0] in [q[0] for q in d['params'] if q[1] in ('po', 'pk', 'ko')]}
+            got = set(src.get(p[0], ()))
+            if got != want:
+                fails.append('inexact-sources: sources[%s] = %s but the inputs declaring it are %s, for %s' % (
+                    p[0], sorted(got), sorted(want), engine.line(req)))
+    # depths
+    if op == 'merge':
+        want_d = {f: 0 for f in fns}
+    elif op == 'embed':
+        want_d = {}
+        for i, f in enumerate(fns):
+            want_d[f] = min(want_d.get(f, i), i)
+    elif op == 'forwards':
+        want_d = {fns[0]: 0}
+        want_d[fns[1]] = min(want_d.get(fns[1], 1), 1)
+    elif op == 'maskp':
+        want_d = {fns[0]: 1, req[3]: 0}
+    else:
+        want_d = {fns[0]: 0}
+    if depths != want_d:
+        fails.append('depths: +depths = %s, expected %s for %s' % (depths, want_d, engine.line(req)))
+    return fails
+
+
+# ----------------------------------------------------------------------------- C10
+def c10(req, ra, ctr):
+    op = req[0]
+    if ra[0] != 'ok' or op not in ('merge', 'embed', 'forwards', 'mask', 'maskp'):
+        return []
+    ds = inputs_of(req)
+    R = R_full(ra)
+    fails = []
+    Rn = {p[0]: p for p in R}
+    full = [[(p[0], p[1], p[2], p[3], core.uann_desc_str(p[4])) for p in d['params']] for d in ds]
+    if op == 'forwards' and req[3][4]:   # partial=True rewrites inner defaults to None
+        full[1] = [p if p[1] in ('vp', 'vk') else (p[0], p[1], 0, p[3], p[4]) for p in full[1]]
+    ins = [[(p[0], p[1], p[2]) for p in s] for s in full]
+    ctr['c10:checked'] += 1
+    # kinds only restrict; order of positional parameters per input
+    allsets = [set(p[0] for p in s) for s in full]
+    disjoint = not any(a & b for a, b in itertools.combinations(allsets, 2))
+    for s in (full if (op in ('mask', 'maskp') or (op == 'merge' and role_cons(ins)) or (op in ('embed', 'forwards') and disjoint)) else []):
+        sp = {p[0]: p for p in s}
+        for p in R:
+            q = sp.get(p[0])
+            if q is None or q[1] in ('vp', 'vk') or p[1] in ('vp', 'vk'):
+                continue
+            if not (p[1] == q[1] or (q[1] == 'pk' and p[1] in ('po', 'ko'))):
+                if True:
+                    fails.append('kind: %s is %s in the result but %s in an input, for %s' % (p[0], p[1], q[1], engine.line(req)))
+        order_in = [p[0] for p in s if p[1] in ('po', 'pk')]
+        order_R = [p[0] for p in R if p[1] in ('po', 'pk') and p[0] in order_in]
+        if True:
+            if order_R != [x for x in order_in if x in order_R]:
+                fails.append('order: positional order %s in the result vs %s in an input, for %s' % (order_R, order_in, engine.line(req)))
+    if op == 'merge' and aligned(ins):
+        ctr['c10:merge-aligned'] += 1
+        for p in R:
+            if p[1] in ('vp', 'vk'):
+                continue
+            contrib = [q for s in full for q in s if q[0] == p[0] and q[1] not in ('vp', 'vk')]
+            if not contrib:
+                fails.append('orphan: %s has no contributor, for %s' % (p[0], engine.line(req)))
+                continue
+            if p[2] is not None and any(q[2] is None for q in contrib):
+                fails.append('optional: %s is optional in the result but required in an input, for %s' % (p[0], engine.line(req)))
+            if p[2] is not None and all(q[2] is not None for q in contrib):
+                vals = {q[2] for q in contrib}
+                want = vals.pop() if len(vals) == 1 else 0
+                if p[2] != want:
+                    fails.append('default: %s has default %s, contributors have %s, for %s' % (p[0], p[2], [q[2] for q in contrib], engine.line(req)))
+            anns = [q[3] for q in contrib if q[3] is not None]
+            want_a = anns[0] if anns and len(set(anns)) == 1 else None
+            if p[3] != want_a:
+                # D14: a later annotated contributor after an earlier disagreement
+                earlier_disagree = False
+                seen = []
+                for a in anns:
+                    if seen and a not in seen:
+                        earlier_disagree = True
+                    seen.append(a)
+                if len(anns) >= 3 and len(set(anns)) > 1 and p[3] == anns[-1]:
+                    fails.append('annotation-nary-forgets-disagreement: %s annotated %s, contributors %s' % (p[0], p[3], anns))
+                else:
+                    fails.append('annotation: %s annotated %s, contributors %s, for %s' % (p[0], p[3], anns, engine.line(req)))
+    if op in ('embed', 'forwards') and len(ds) == 2:
+        o, i = full
+        on = [p[0] for p in o]
+        inn = [p[0] for p in i]
+        if not (set(on) & set(inn)):
+            for kinds in (('po', 'pk'), ('ko',)):
+                seq = [p[0] for p in R if p[1] in kinds]
+                flags = ['o' if x in on else 'i' for x in seq]
+                if 'o' in flags and 'i' in flags and flags.index('i') < len(flags) - 1 - flags[::-1].index('o'):
+                    fails.append('outer-first: %s parameters of the result are ordered %s (%s), for %s' % (kinds, seq, flags, engine.line(req)))
+            # outer defaults dropped only when a required inner positional follows
+            Rpos = [p for p in R if p[1] in ('po', 'pk')]
+            for idx, p in enumerate(Rpos):
+                q = next((x for x in o if x[0] == p[0]), None)
+                if q is None:
+                    continue
+                if q[2] is not None and p[2] is None:
+                    if not any(r[0] in inn and r[2] is None for r in Rpos[idx + 1:]):
+                        fails.append('default-dropped: outer default of %s dropped without a required inner positional after it, for %s' % (p[0], engine.line(req)))
+                elif q[2] != p[2]:
+                    fails.append('default-changed: %s default %s -> %s, for %s' % (p[0], q[2], p[2], engine.line(req)))
+            for p in R:
+                q = next((x for x in o + i if x[0] == p[0]), None)
+                if q is not None and p[1] == 'ko' and q[2] != p[2]:
+                    fails.append('default-changed: keyword-only %s default %s -> %s, for %s' % (p[0], q[2], p[2], engine.line(req)))
+                if q is not None and (q[3], q[4]) != (p[3], p[4]):
+                    if not (p[1] in ('vp', 'vk')):
+                        fails.append('annotation-changed: %s %s -> %s, for %s' % (p[0], (q[3], q[4]), (p[3], p[4]), engine.line(req)))
+    if op == 'maskp':
+        for k, v in req[2]:
+            p = Rn.get(k)
+            if p is None or p[1] != 'ko' or p[2] != v:
+                fails.append('partial-keyword: bound keyword %s=%s shows up as %s, for %s' % (k, v, p, engine.line(req)))
+    if op in ('mask', 'maskp'):
+        s = {p[0]: p for p in full[0]}
+        bound = dict(req[2]) if op == 'maskp' else {}
+        for p in R:
+            q = s.get(p[0])
+            if q is None or p[0] in bound:
+                continue
+            if (q[2], q[3], q[4]) != (p[2], p[3], p[4]):
+                fails.append('mask-meta: %s changed default/annotation %s -> %s, for %s' % (p[0], q[2:], p[2:], engine.line(req)))
+    return fails
+
+
+# ----------------------------------------------------------------------------- C15
+def valid_params(ps):
+    rank = {'po': 0, 'pk': 1, 'vp': 2, 'ko': 3, 'vk': 4}
+    top = 0
+    seen_d = False
+    seen = set()
+    for p in ps:
+        r = rank[p[1]]
+        if r < top:
+            return 'kind order'
+        top = max(top, r)
+        if p[1] in ('po', 'pk'):
+            if p[2] is None:
+                if seen_d:
+                    return 'required positional after optional'
+            else:
+                seen_d = True
+        if p[0] in seen:
+            return 'duplicate name'
+        seen.add(p[0])
+    return None
+
+
+def c15(req, ra, ctr):
+    op = req[0]
+    if op not in ('merge', 'embed', 'mask', 'maskp', 'forwards'):
+        return []
+    fails = []
+    ds = inputs_of(req)
+    ins = [S3(d) for d in ds]
+    if ra[0] == 'err':
+        ctr['c15:err'] += 1
+        if ra[1] not in ('ValueError', 'IncompatibleSignatures'):
+            fails.append('bad-exception: %s raised %s' % (engine.line(req), ra[1]))
+        elif op in ('merge', 'embed') and ra[1] != 'IncompatibleSignatures':
+            if op == 'merge' and role_cons(ins):
+                fails.append('roles-valueerror: merge of role-consistent inputs raised plain ValueError: %s' % engine.line(req))
+            if op == 'embed':
+                allsets = [set(p[0] for p in s) for s in ins]
+                if not any(a & b for a, b in itertools.combinations(allsets, 2)):
+                    fails.append('roles-valueerror: embed of name-disjoint inputs raised plain ValueError: %s' % engine.line(req))
+    else:
+        ctr['c15:ok'] += 1
+        why = valid_params(P_of(ra[1]))
+        if why:
+            fails.append('malformed: %s in result %s of %s' % (why, core.fmt_params(P_of(ra[1])), engine.line(req)))
+        if ra[6]:
+            fails.append('not-upgraded: result flags %s for %s' % (ra[6], engine.line(req)))
+    # downgraded inputs: same parameters + DeprecationWarning
+    if op != 'maskp':
+        import warnings
+        with warnings.catch_warnings(record=True) as w:
+            warnings.simplefilter('always')
+            try:
+                rp = _run_plain(req)
+            except core.CanonError:
+                raise
+        ctr['c15:plain'] += 1
+        a = engine.proj_params(ra) if ra[0] == 'ok' else ('err',)
+        b = engine.proj_params(rp) if rp[0] == 'ok' else ('err',)
+        if a != b:
+            fails.append('downgrade-differs: %s gives %s with upgraded and %s with plain inputs' % (engine.line(req), a, b))
+        if not any(issubclass(x.category, DeprecationWarning) for x in w) and ds and any(d['params'] for d in ds):
+            fails.append('downgrade-no-warning: %s emitted no DeprecationWarning for plain inputs' % engine.line(req))
+    return fails
+
+
+def _run_plain(req):
+    op = req[0]
+    mk = lambda d: core.mk_sig(d, plain=True)  # noqa
+    try:
+        if op == 'merge':
+            r = signatures.merge(*[mk(d) for d in req[1]])
+        elif op == 'embed':
+            r = signatures.embed(*[mk(d) for d in req[3]], use_varargs=bool(req[1]), use_varkwargs=bool(req[2]))
+        elif op == 'mask':
+            _, n, nms, fl, d = req
+            r = signatures.mask(mk(d), n, *nms, hide_args=fl[0], hide_kwargs=fl[1], hide_varargs=fl[2], hide_varkwargs=fl[3])
+        elif op == 'forwards':
+            _, n, nms, fl, o, i = req
+            r = signatures.forwards(mk(o), mk(i), n, *nms, hide_args=fl[0], hide_kwargs=fl[1],
+                                    use_varargs=fl[2], use_varkwargs=fl[3], partial=fl[4])
+    except Exception as e:  # noqa
+        return core.canon_exc(e)
+    return core.canon_sig(r)
